@@ -103,6 +103,23 @@ def sealed_journal_scenarios(tier):
         if o.get(n - 3) != want_scan or o.get(n - 1) != "some 00" or o.get(n) != want_names:
             out.append(("after deleting the keyspace whose records live in a sealed journal, reopen, create, reopen: new keyspace "
                         "reads %s (expected %s), alpha 6a = %s, names %s" % (o.get(n - 3), want_scan, o.get(n - 1), o.get(n)), prog))
+    # keyspace creations / deletions are the LAST operations before the close (they touch only the meta tree, never the journal)
+    # while a sealed journal still holds unflushed data of another keyspace: after the reopen the counters must be above the
+    # meta tree's rows too, otherwise the next keyspace's rows are older than the tombstones and it vanishes at the reopen after
+    L = ["open plain jcomp=none", "ks h0 alpha", "ks h1 beta", "ks h5 tmpx", "put h1 6b 01", "put h0 6a 00",
+         "bigfill h0 66 1024 t0", "rotate h0", "drain", "info"]
+    for i in (6, 7, 8):
+        L += ["ks h%d scratch%d" % (i, i), "delks h%d" % i, "drop h%d" % i]
+    L += ["delks h5", "drop h5", "reopen", "ks h2 gamma", "put h2 6c 02", "reopen", "ks h3 gamma", "scan - h3 fwd all",
+          "ks h4 alpha", "get - h4 6a", "ks h9 beta", "get - h9 6b", "names"]
+    prog = "\n".join(L) + "\n"
+    o, raw, rc = run_fjv(prog, timeout=300)
+    n = len(L)
+    got = (o.get(n - 5), o.get(n - 3), o.get(n - 1), o.get(n))
+    if o.get(10) and "journals=2" in o.get(10) and got != ("6c=02", "some 00", "some 01", "alpha,beta,gamma"):
+        out.append(("keyspaces created and deleted right before the close while a sealed journal holds another keyspace's unflushed "
+                    "data; reopen, create 'gamma', write, reopen: gamma reads %s (expected 6c=02), alpha 6a = %s, beta 6b = %s, names %s"
+                    % got, prog))
     return out
 
 
@@ -119,7 +136,7 @@ def run(rep, tier, seed, build):
     sj += [x for x in pmap(deleted_keyspace_eviction, DKE[:2] if tier == "quick" else DKE, workers=4) if x]
     for msg, prog in sj[:2]:
         rep.violation("# C12: %s\n%s" % (msg, prog))
-    coverage(rep, res, progs, RULE, dict(sealed_journal_scenarios=2 if tier == "quick" else 3))
+    coverage(rep, res, progs, RULE, dict(sealed_journal_scenarios=3 if tier == "quick" else 4))
 
 
 def replay(rep, path, build):
